@@ -57,7 +57,7 @@ def run(chk, tier):
         unlock(chk, prog, c)
         lock_mutators(chk, prog, c)
         common.unsafe_macros(chk, prog, "C13", c)
-    witness.report(chk, "C13", rule="witness", floor=20, tier=tier)
+    witness.report(chk, "C13", rule="witness", floor=21, tier=tier)
 
 
 def _mentions_write(prog, tid):
